@@ -39,11 +39,17 @@
     fire; what a confirmed group is turned into is proved, but the composition "group inside a longer file" is
     covered by the tie (stages exh, rand) only; (ii) the temporary-object half of soundness is proved on the
     analysed change list for tables; its column analogue and the bridge from statements to that list are covered
-    by the tie only. *)
+    by the tie only.
+    ROUND 5 closes most of (i) and (ii): C18_rebuild_group_in_file (a confirmed group after any statements that
+    create no new_* table: the statements before stay, the group is folded at its CREATE, the rest is processed
+    by the same pre-pass; DS103 of the group and DS102 of the statements before it are in the file's report),
+    C18_sound_temp_objects (tables and columns, any analysed list), C18_sound_temp_table_file and
+    C18_sound_temp_column_file (bridge from statements).  Still missing: file-level COMPLETENESS (theorems 5-6')
+    for files on which the pre-pass fires, stated on statements rather than on the analysed list. *)
 From Coq Require Import List NArith Bool Arith.
 From Atlas Require Import Base.Bytes Lint.LintModel Lint.LintSpec Lint.LintProofs Lint.LintFileProofs Lint.LintSoundProofs Lint.LintDropProofs Lint.LintRefute
   Lint.LintNolintModel Lint.LintNolintProofs Lint.LintNolintRefute
-  Lint.LintGenModel Lint.LintGenSpec Lint.LintGenProofs Lint.LintGenRefute Lint.LintEnvModel Lint.LintEnvProofs Lint.LintHistProofs.
+  Lint.LintGenModel Lint.LintGenSpec Lint.LintGenProofs Lint.LintGenRefute Lint.LintEnvModel Lint.LintEnvProofs Lint.LintHistProofs Lint.LintComposeProofs.
 Import ListNotations.
 
 (** 1. destructive.Analyze, exactly: DS102 at [p] naming [n] iff a statement at [p] carries DropTable n
@@ -692,6 +698,31 @@ Theorem C18_sound_temp_column_file :
 Proof. exact sound_temp_column_file. Qed.
 Print Assumptions C18_sound_temp_column_file.
 
+(** * Round 5 -- composition: a rebuild group inside a longer file (Lint/LintComposeProofs.v) *)
+
+(** 50. A confirmed rebuild group (CREATE new_t / copy without schema change / DROP t / RENAME new_t TO t) that follows
+    any statements none of which creates a new_* table: the statements before it stay in the analysed list as they are,
+    the group is folded into one ModifyTable at the position of its CREATE, the statements after it are processed by
+    the same pre-pass; every omitted non-virtual column gets its DS103 there, and every DropTable of the statements
+    before the group keeps its DS102 (span states taken over the whole analysed list).  Applied repeatedly (the
+    [rewriteTemp rest] of one application is the [cl] of the next when [rest] starts with statements without new_*
+    creations) this covers any number of groups in one file. *)
+Theorem C18_rebuild_group_in_file :
+  forall pre c0 c1 c2 c3 rest prevT currT,
+  (forall T, In (AddTableC T) (all_changes pre) -> has_prefix (t_name T) new_prefix = false) ->
+  sc_changes c1 = [] ->
+  modifyUsingTemp c0 c2 c3 = Some (prevT, currT) ->
+  let cl := pre ++ c0 :: c1 :: c2 :: c3 :: rest in
+  rewriteTemp cl = pre ++ mkSC (sc_pos c0) [ModifyTableC currT (tableDiff prevT currT)] :: rewriteTemp rest /\
+  (forall d, In d (t_cols prevT) -> find_col (t_cols currT) (c_name d) = None -> c_virtual d = false ->
+             column_state (rewriteTemp cl) (t_name currT) (c_name d) <> SpanTemporary ->
+             exists ns, In (mkDiag DS103 (sc_pos c0) ns) (analyze_file cl) /\ In (c_name d) ns) /\
+  (forall p T, (exists sc, In sc pre /\ sc_pos sc = p /\ In (DropTableC T) (sc_changes sc)) ->
+             table_state (rewriteTemp cl) (t_name T) <> SpanTemporary ->
+             In (mkDiag DS102 p [t_name T]) (analyze_file cl)).
+Proof. exact rebuild_group_in_file. Qed.
+Print Assumptions C18_rebuild_group_in_file.
+
 (* non-vacuity, round 5 *)
 Example ex_generic_multi :
   Analyze_g false w_multi =
@@ -755,3 +786,14 @@ Proof.
   - intros [T [H1 H2]]. inversion H1; subst. apply H2. reflexivity.
   - intros [T [H1 H2]]. inversion H1; subst. apply H2. reflexivity.
 Qed.
+
+Example ex_rebuild_group_in_file :
+  let V := mkTab n_victim [c_id] [] in
+  let New := mkTab n_new_t [c_id; c_a] [] in
+  let Old := mkTab n_t [c_id; c_a; c_b] [] in
+  let Cur := mkTab n_t [c_id; c_a] [] in
+  let cl := [mkSC 0 [DropTableC V]; mkSC 20 [AddTableC New]; mkSC 60 []; mkSC 100 [DropTableC Old];
+             mkSC 115 [RenameTableC New Cur]; mkSC 150 [ModifyTableC Cur [DropColumnC c_a]]] in
+  modifyUsingTemp (mkSC 20 [AddTableC New]) (mkSC 100 [DropTableC Old]) (mkSC 115 [RenameTableC New Cur]) = Some (Old, Cur)
+  /\ analyze_file cl = [mkDiag DS102 0 [n_victim]; mkDiag DS103 20 [c_name c_b]; mkDiag DS103 150 [c_name c_a]].
+Proof. vm_compute. split; reflexivity. Qed.
